@@ -33,23 +33,12 @@ CLAIMS = {
             "dimensions scale by f, path independence, hot-dimension read-back, linked dimensions follow their target, "
             "fluids keep dimensions; real library materials with symbolic temperature where the law is polynomial.",
             "3-D shapes, negative-area void handling and non-polynomial material laws are outside.", "3 C03"),
-    "C04": ("Pure-Python kernels of the database round trip only: layout ancestry for every valid pre-order layout of "
-            "<= 6 objects with symbolic distinct serial numbers; location pack/unpack for symbolic locator kinds, "
-            "indices and coordinates; grid rebuilt from its constructor arguments (with C07).",
-            "KERNELS ONLY: HDF5 reading/writing, parameter datasets, whole-reactor equality are not encodable and "
-            "not claimed.", "3 C04"),
-    "C05": ("Flag bit remapping for every bit-field value and every injective old->new bit map (symbolic bit-vectors); "
-            "flag sets keep their names across every permutation/extension of the reader's flag class (solver-"
-            "enumerated); byte round trip, width, rejection of oversize values; extend() keeps old members.",
-            "KERNELS ONLY: numpy dtype strategy selection, None/NaN sentinels, jagged arrays and HDF5 attributes are "
-            "outside (C-level numpy); flag classes with gaps in their bit layout are outside the serializer's domain.",
-            "3 C05"),
-    "C06": ("Snapshot names for all (cycle,node) in [0,100)^2: injective, lexicographic = chronological, parse back, "
-            "labels never change the parsed pair, real genTimeSteps lists exactly the written snapshots in order; "
-            "crash point as a symbolic variable through the real Operator/DatabaseInterface control flow with a "
-            "recording database stub: snapshots written, error snapshot, close flag.",
-            "File CONTENTS (HDF5), history values, split/merge contents are outside; database I/O is a recording stub.",
-            "3 C06"),
+    "C04": ('Pure-Python kernels of the database round trip: layout ancestry for every valid pre-order layout of <= 6 objects with symbolic distinct serial numbers; location pack/unpack for symbolic locator kinds, indices and coordinates; special-data packing (ragged arrays, dictionaries with zero-valued entries, unset entries) with the solver choosing which entry is zero/unset/which shape; a grid rebuilt from reduce() equals the CURRENT grid after any history of pitch/symmetry/offset/bounds changes interleaved with reduce(); the persisted theoretical-density fraction pushed back into a freshly built material (symbolic fraction, material class chosen by the solver).',
+            'KERNELS ONLY: HDF5 reading/writing itself and whole-reactor equality are not encodable and not claimed; values inside numpy arrays are concrete (C boundary), the choice of pattern is symbolic.', "3 C04"),
+    "C05": ("Flag bit remapping for every bit-field value and every injective old->new bit map (symbolic bit-vectors); flag sets keep their names across every permutation/extension of the reader's flag class (solver-enumerated); byte round trip, width, rejection of oversize values; extend() keeps old members; packSpecialData/unpackSpecialData and replaceNonsenseWithNones on collections where the solver chooses which entries are unset, zero, empty, negative-zero, of which shape and numeric kind (ragged arrays, dictionaries, strings, booleans, unsigned and signed integers).",
+            "numpy dtype handling is a C boundary: array contents are concrete representatives, the pattern is symbolic; HDF5 attributes are outside; flag classes with gaps in their bit layout are outside the serializer's domain.", "3 C05"),
+    "C06": ('Snapshot names for all (cycle,node) in [0,100)^2: injective, lexicographic = chronological, parse back, labels never change the parsed pair, real genTimeSteps lists exactly the written snapshots in order; crash point as a symbolic variable through the real Operator/DatabaseInterface control flow with a recording database stub; the real Database.writeToDB/_writeParams/Layout, splitDatabase, getHistories/getHistory run on an in-memory stand-in for the h5py objects: symbolic, unordered time-step selections for a split (names, cycle offset, copied groups), every sequence of writes / labelled writes / re-writes / parameter changes keeps earlier snapshots identical to what they were when written, histories follow objects by identity for symbolic stored values.',
+            'The h5py file is an in-memory stand-in (dict of groups/datasets that copies data and refuses existing names): HDF5 encoding itself is outside; values in typed arrays are concrete.', "3 C06"),
     "C07": ("For ALL integer cell indices / ring-position pairs and all pitches (symbolic, unbounded Int/Real): "
             "ring/pos <-> indices are mutual inverses, ring = hex distance + 1, 6(r-1) contiguous positions, six "
             "neighbours one pitch away counter-clockwise in both orientations, coordinates affine in the indices, "
@@ -61,15 +50,10 @@ CLAIMS = {
             "matches coordinates, rotateIndex rotates coordinates by k*60 degrees for k in [-13,13], additive, period "
             "6; quarter-core Cartesian variants; block/assembly rotation moves pins, free coordinates, corner/edge "
             "data, displacement and orientation.", "Rotation angles are concrete multiples of 60 degrees.", "3 C08"),
-    "C09": ("Binary record byte accounting as an inductive step from an arbitrary symbolic byte count for every "
-            "primitive; complete records of 1..2 fields framed by payload length and read back; ASCII integer and "
-            "string fields over the full int32 range (digit-level symbolic strings); block-band partition for all "
-            "nintj.", "Field values in binary records are concrete (struct is a C boundary); ISOTXS/PMATRX/... bodies "
-            "(scipy sparse) and byte-for-byte fixture rewrites are outside. One recorded known finding (10-digit "
-            "ASCII integers).", "3 C09"),
-    "C10": ("Macroscopic cross sections and energy constants are the density-weighted sums of symbolic microscopic data "
-            "(linear, additive, zero for empty, missing nuclide refused); metadata merge conflict detection.",
-            "Library merge over real nuclide objects and sparse scatter matrices are outside.", "3 C10"),
+    "C09": ('Binary record byte accounting as an inductive step from an arbitrary symbolic byte count for every primitive; complete records framed by payload length and read back; ASCII integer and string fields over the full int32 range (digit-level symbolic strings); block-band partition; and write -> read -> write round trips of EVERY format (ISOTXS, GAMISO, PMATRX, DLAYXS, COMPXS, GEODST, DIF3D, NHFLUX/NAFLUX nodal and VARIANT, LABELS, PWDINT, RTFLUX/ATFLUX, RZFLUX, FIXSRC; binary and ASCII) with every header integer that sizes or gates a record symbolic: data equal, byte-for-byte rewrite, independent framing walk, record counts and lengths, documented in-record order.',
+            'Field values in records are concrete pairwise-different numbers (struct is a C boundary); header ranges are small (groups <= 3-4, meshes <= 3, nuclides <= 2). Recorded known findings: 10-digit ASCII integers, GAMISO label.', "3 C09"),
+    "C10": ('Macroscopic cross sections and energy constants are the density-weighted sums of symbolic microscopic data (linear, additive, zero for empty, missing nuclide refused) for every creator option combination, two creator calls in one process (no shared state), scatter matrices over several cross-section IDs, removal = absorption - n2n + out-scatter; library merge over real IsotxsLibrary/XSNuclide objects in a solver-chosen order is lossless or refused; metadata merge conflict detection.',
+            '<= 3 groups, <= 5 library nuclides; scatter matrices are a dense stand-in for scipy.sparse on proxies (self-tested against scipy on plain numbers); library files themselves belong to C09.', "3 C10"),
     "C11": ("For all source/destination axial meshes within bounds (every interleaving explored as paths): blocks "
             "between elevations partition the interval, atoms and integrated parameters conserved, averaged = "
             "height-weighted mean, peak = max; mesh filter and step-function resampling.",
@@ -90,16 +74,10 @@ CLAIMS = {
     "C16": ("retainState with every keep-set/assignment/nesting combination (solver-enumerated) and symbolic values "
             "through pickle; copies independent; serial numbers fresh; read-only refuses assignments.",
             "Block with 2-3 components, depth 2.", "3 C16"),
-    "C18": ("Lattice-map index arithmetic for all lines/columns/map sizes: (line,col)->(i,j) injective in all four map "
-            "geometries, reader and writer agree, the third-core map draws exactly the cells the grid calls the first "
-            "third, full-core maps reach every cell of the hexagon.",
-            "KERNELS ONLY: YAML parsing, component/block/assembly construction, material modifications are outside.",
-            "3 C18"),
-    "C19": ("Identifier encoders (MCNP, AAAZZZS, name, label, Serpent) injective and decodable for all z<=118, a<=299, "
-            "state<=3 (same-element mass window < 100 witnessed on the table); material expansion/density laws finite "
-            "and positive over the declared temperature range for symbolic T (polynomial laws).",
-            "KERNELS ONLY: table-wide uniqueness over ~4700 rows, abundances, burn chain are finite data checks "
-            "without symbolic content and are outside.", "3 C19"),
+    "C18": ('Lattice-map index arithmetic for all lines/columns/map sizes: (line,col)->(i,j) injective in all four map geometries, reader and writer agree, the third-core map draws exactly the cells the grid calls the first third, full-core maps reach every cell; indexed contents with solver-chosen occupancy (holes, empty lines, empty borders) are drawn and read back or refused; GridBlueprint lattice text places each specifier where its text position says and survives save/load; material modifications, custom isotopics and the class1/class2 blend applied through the real AssemblyBlueprint.construct with symbolic fractions.',
+            'YAML parsing itself is outside (blueprint objects are built in Python from a fixed skeleton); maps up to ring 3 / 4x4. Recorded known findings: hex outline without its corner cell, Cartesian negative indices, late refusal in saveToStream.', "3 C18"),
+    "C19": ('Identifier encoders (MCNP, AAAZZZS, name, label, Serpent) injective and decodable for all z<=118, a<=299, state<=3; material expansion/density laws finite and positive over the declared temperature range for symbolic T (polynomial laws); default compositions of every material class (fractions in [0,1], sum to 1); every row of the nuclide tables and of burn-chain.yaml (row index symbolic): element membership, branch fractions in [0,1], products exist.',
+            'Table checks are finite data checks driven by a symbolic row index (enumeration by the solver). Recorded known findings: zero pseudo-density of 4 materials, UThZr density, Sulfur and Potassium compositions.', "3 C19"),
     "C20": ("Label <-> number for every label of 1-2 allowable characters (symbolic characters); representative-block "
             "densities/temperatures equal the weight-normalised mean over eligible members for all symbolic weights, "
             "densities and temperatures; burnup/median; environment-group bucketing.",
